@@ -109,6 +109,7 @@ type pathResult struct {
 	auditFail   []string
 	byModel     int
 	folded      int
+	monitorChecks int
 }
 
 const (
